@@ -48,7 +48,7 @@ vars == <<start, size, slots, S, ev, fails, nid, view, hist, lay0, ncalls>>
 
 Junk == -1
 NoView == [on |-> FALSE, kind |-> "", buf_size |-> 0, rs |-> 0, re |-> 0, is |-> 0, ie |-> 0, right |-> <<>>, left |-> <<>>,
-           short |-> FALSE, lens |-> FALSE, steps |-> 0, maxsteps |-> 0]
+           short |-> FALSE, lens |-> FALSE, steps |-> 0, maxsteps |-> 0, byval |-> FALSE]
 
 \* how the view will be exercised: canonical range forms get every interleaving of next / next_back
 \* (up to one call past exhaustion), with len() after every step or never; other forms are only
@@ -593,6 +593,29 @@ NextIO ==
             LET data == [x \in 1..k |-> 100 + x]
                 r == ExtendFromSlice(Rnow, data, NoFault) IN
             Commit(IoEv("write_all", r, 0, data, RetK("ok")), r) /\ UNCHANGED view
+       \/ Commit(IoEv("hash", Rnow, 0, <<>>, [RetK("str") EXCEPT !.n = 1]), Rnow) /\ UNCHANGED view   \* Hash, ==, cmp, Debug: observers
+       \/ \E op \in {"read_to_end", "read_to_string"} :            \* provided methods: read() until it returns 0
+            LET r == TruncFront(Rnow, 0, NoFault) IN
+            Commit(IoEv(op, r, IF op = "read_to_string" THEN 1 ELSE 0, <<>>, [RetN(size) EXCEPT !.ids = MyIds]), r) /\ UNCHANGED view
+       \/ \E d \in 0..N :                                          \* read_until (provided): fill_buf / consume up to the delimiter
+            LET hits == {j \in 1..size : MyIds[j] = d}
+                k == IF hits = {} THEN size ELSE CHOOSE j \in hits : \A j2 \in hits : j <= j2
+                r == TruncFront(Rnow, size - k, NoFault) IN
+            Commit(IoEv("read_until", r, d, <<>>, [RetN(k) EXCEPT !.ids = SubSeq(MyIds, 1, k)]), r) /\ UNCHANGED view
+       \/ \E k1 \in 0..2, k2 \in 0..2 :                            \* read_vectored (provided): read() into the first non-empty buffer
+            LET k == Min(IF k1 > 0 THEN k1 ELSE k2, size)
+                r == TruncFront(Rnow, size - k, NoFault) IN
+            Commit(IoEv("read_vectored", r, 0, <<k1, k2>>, [RetN(k) EXCEPT !.ids = SubSeq(MyIds, 1, k)]), r) /\ UNCHANGED view
+       \/ \E k \in 0..MaxArg : \E cut \in 0..k :                   \* write_vectored (provided): write() of the first non-empty buffer
+            LET data == [x \in 1..k |-> 100 + x]
+                part == IF cut > 0 THEN SubSeq(data, 1, cut) ELSE data
+                r == ExtendFromSlice(Rnow, part, NoFault) IN
+            Commit(IoEv("write_vectored", r, cut, data, RetN(Len(part))), r) /\ UNCHANGED view
+       \/ \E k \in 0..MaxArg : \E cut \in 0..k :                   \* write_fmt (provided): write_all() of every piece
+            LET data == [x \in 1..k |-> 100 + x]
+                r1 == ExtendFromSlice(Rnow, SubSeq(data, 1, cut), NoFault)
+                r == ExtendFromSlice(r1, SubSeq(data, cut + 1, k), NoFault) IN
+            Commit(IoEv("write_fmt", r, cut, data, RetK("ok")), r) /\ UNCHANGED view
        \/ LET p == SlicesOf(start, size)                            \* fill_buf: the front slice unless it is empty
                sl == IF p[1] # <<>> THEN p[1] ELSE p[2] IN
            Commit(IoEv("fill_buf", Rnow, 0, <<>>, [RetK("ids") EXCEPT !.ids = IdsAt(slots, sl), !.slots = sl]), Rnow) /\ UNCHANGED view
@@ -644,7 +667,7 @@ NextViewStep ==
     /\ view.on /\ fails = {}
     /\ \/ \E back \in {FALSE, TRUE} :
             LET op == IF back THEN "v_next_back" ELSE "v_next" IN
-            /\ ~view.short /\ ~LenDue /\ view.steps < view.maxsteps
+            /\ ~view.short /\ ~LenDue /\ view.steps < view.maxsteps /\ ~view.byval
             /\ IF view.kind = "into"      \* IntoIter: pop_front / pop_back on the owned buffer
                THEN LET r == OptRet(IF back THEN PopBackR(Rnow) ELSE PopFrontR(Rnow))
                         e == IntoH(ViewEv(op, r, Ev0)) IN
@@ -676,7 +699,7 @@ NextViewStep ==
               rd == [Rnow EXCEPT !.ret = [RetK("str") EXCEPT !.ids2 = Vals(S, win), !.b = TRUE],
                                  !.cbs = [k \in 1..Len(win) |-> Cb("fmt", win[k], 0)]]
               e == IntoH(IF which = "v_debug" THEN [ViewEv("v_debug", rd, Ev0) EXCEPT !.allocs = -1] ELSE ViewEv(which, r, Ev0)) IN
-          /\ LenDue
+          /\ LenDue /\ ~view.byval
           /\ view' = view
           /\ Commit([e EXCEPT !.post = ViewObs(e)], r)
        \/ \E f \in Faults(IF view.kind = "drain" THEN DrainDrop(Rnow, view, NoFault)
@@ -687,7 +710,22 @@ NextViewStep ==
             /\ (f.k = "none" \/ r.fired) /\ ~LenDue
             /\ view' = NoView
             /\ Commit([e EXCEPT !.post = IF view.kind = "into" THEN NoObs ELSE Obs(r.start, r.size, r.slots, S, e), !.fk = f.k, !.fn = f.n], r)
-       \/ /\ view.kind = "drain" /\ ~LenDue /\ ~view.short
+       \/ \E back \in {FALSE, TRUE} :       \* fold / rfold (provided methods that take the view by value): everything
+            \* that is left is handed over in order, nothing is destroyed; the view is then dropped by the same call
+            \* (recorded as the v_drop that follows)
+            LET n == IF view.kind = "drain" THEN view.ie - view.is ELSE IF view.kind = "into" THEN size ELSE Len(view.right) + Len(view.left)
+                win == IF view.kind = "drain" THEN IdsAt(slots, [k \in 1..n |-> AddMod(start, view.is + k - 1, N)])
+                       ELSE IF view.kind = "into" THEN MyIds ELSE IdsAt(slots, view.right \o view.left)
+                at == IF view.kind \in {"drain", "into"} THEN <<>> ELSE view.right \o view.left
+                r0 == IF view.kind = "into"      \* pop_front / pop_back until empty
+                      THEN [Rnow EXCEPT !.size = 0, !.start = IF back \/ N = 0 THEN start ELSE AddMod(start, size, N)]
+                      ELSE Rnow
+                r == [r0 EXCEPT !.ret = [RetK("ids") EXCEPT !.ids = IF back THEN Rev(win) ELSE win, !.slots = IF back THEN Rev(at) ELSE at]]
+                e == IntoH([ViewEv("v_rest", r, Ev0) EXCEPT !.acc = IF back THEN "rfold" ELSE "fold", !.i = IF back THEN 1 ELSE 0, !.allocs = -1]) IN
+            /\ ~LenDue /\ ~view.byval /\ ~view.short
+            /\ view' = [view EXCEPT !.byval = TRUE, !.lens = FALSE, !.is = view.ie, !.right = <<>>, !.left = <<>>]
+            /\ Commit(e, r)
+       \/ /\ view.kind = "drain" /\ ~LenDue /\ ~view.short /\ ~view.byval
           /\ LET r == Rnow  e == ViewEv("v_forget", r, Ev0) IN
              /\ view' = NoView
              /\ Commit([e EXCEPT !.post = Obs(start, size, slots, S, e)], r)
@@ -763,7 +801,7 @@ LayoutView == <<start, size>>
 
 \* scenario output: one JSON line per finished behaviour
 \* (inputs, plus what the mechanism predicts for the layout afterwards - used for drift notes only)
-Slim(e) == [ty |-> e.ty, op |-> e.op, i |-> e.i, j |-> e.j, nids |-> Len(e.ids), vals |-> e.vals, bs |-> e.bs, be |-> e.be,
+Slim(e) == [ty |-> e.ty, op |-> e.op, acc |-> e.acc, i |-> e.i, j |-> e.j, nids |-> Len(e.ids), vals |-> e.vals, bs |-> e.bs, be |-> e.be,
             fk |-> e.fk, fn |-> e.fn, unw |-> e.unw, retk |-> e.ret.k, obs |-> e.post.obs, seq |-> e.post.seq,
             slots |-> e.post.slots]
 EmitScenario == Finished' => PrintT("SCN " \o ToJson([lay |-> lay0, evs |-> [k \in 1..Len(hist') |-> Slim(hist'[k])]]))
